@@ -5,7 +5,7 @@ import exprk
 def run(ctx):
     ctx.prove("C02")
     q = ctx.tier == "quick"
-    exprk.run_k(ctx, "C02", 300 if q else 10000, 0,
+    exprk.run_k(ctx, "C02", 180 if q else 10000, 0,
                 kinds=["clause", "clause", "clause", "clause", "elem", "binary"], tag="c02")
     ctx.cov["rule"] = ("scripts of 1-4 statements dominated by clause chains of length 1-3 (filter, calc, keep, drop, rename, sub) applied to inputs and to "
                        "results of other clauses/operators; conditions and calc expressions of depth ≤ 3 incl. null conditions, overwritten measures, "
